@@ -374,6 +374,18 @@ theorem C10_appendP (fuel p c : Nat) (h : Heap) (inv : Inv h) : Inv (appendP R f
           | ok u1 => exact C10_append R p c h1 hp
       · rw [if_neg hcond]; exact ha
 
+
+/-- **C12 (`child.parent = p`, the library's setter after the repair of D34).** A child refused at admission leaves the heap —
+    the child's own pointers and the pending receiving element included — exactly as it was. -/
+theorem C12_setParentP_refused (fuel p c : Nat) (h : Heap) (e : Err) (cn : Node) (hc : h[c]? = some cn)
+    (herr : (append R p c (setPtr c (some p) none h)).2 = .error e) :
+    setParentP R fuel p c h = (h, .error e) := by
+  unfold setParentP
+  simp only [hc]
+  rw [C12_appendP_refused R fuel p c _ e herr]
+  simp only []
+  rw [setPtr_restore h c cn hc]
+
 /-! ### every reachable state -/
 
 inductive HOp
